@@ -1,7 +1,7 @@
 """G-c10: programs aimed at the places where customasm keeps things in hash containers (symbol tables with many
 siblings at several nesting levels, asm blocks with several parameters / inner labels / nested expansion, token
 substitutions, functions with several parameters, rule sets sharing prefixes, #once sets), valid and faulty.
-Every function returns (roots, {file name: bytes}, tag)."""
+Every function returns (roots, {file name: bytes}, tag[, extra])."""
 
 NAMES = ["alpha", "beta", "gamma", "delta", "eps", "zeta", "eta", "theta", "iota", "kappa", "lam", "mu", "nu", "xi", "omi", "pi",
          "rho", "sigma", "tau", "ups", "phi", "chi", "psi", "omega", "a", "b", "c", "x", "y", "z", "A", "B", "x1", "x2", "_u", "__h",
@@ -18,10 +18,15 @@ def symbols(rng):
     faulty = rng.chance(0.25)
     tops = pick_names(rng, rng.range(2, 14))
     refs = []
+    hidden = set()
     for t in tops:
         kind = rng.below(3)
         if kind == 0:
-            out.append(("#const(noemit) %s = %d" if rng.chance(0.25) else "%s = %d") % (t, rng.below(1000)))
+            if rng.chance(0.25):
+                out.append("#const(noemit) %s = %d" % (t, rng.below(1000)))
+                hidden.add(t)
+            else:
+                out.append("%s = %d" % (t, rng.below(1000)))
         else:
             out.append("%s:" % t)
             if rng.chance(0.6):
@@ -48,7 +53,10 @@ def symbols(rng):
         out.append("#d8 %s.nosuch + %s" % (rng.choice(tops), rng.choice(refs)))
     if faulty and rng.chance(0.3):
         out.append("%s:" % rng.choice(tops))               # duplicate global
-    return ["main.asm"], {"main.asm": ("\n".join(out) + "\n").encode()}, "symbols" + ("-faulty" if faulty else "")
+    # the names in declaration order (= source order here: children follow their parent), without the noemit constants:
+    # what `-f symbols` must list, in this order, if the children are walked by declaration index
+    expected = [r for r in refs if r not in hidden]
+    return ["main.asm"], {"main.asm": ("\n".join(out) + "\n").encode()}, "symbols" + ("-faulty" if faulty else ""), expected
 
 
 BASE_RULES = ["ld {x: u8} => 0x10 @ x", "jmp {a: u16} => 0x20 @ a", "add {p: u8}, {q: u8} => 0x30 @ p @ q", "nop => 0x00",
